@@ -137,6 +137,8 @@ pub struct Hist {
     pub w_persist: usize,
     /// deliver everything everywhere at the end (in a discipline-respecting order) before `E`
     pub flush: bool,
+    /// end the case with the convergence oracle `E` (only where equal knowledge must give equal state)
+    pub end_oracle: bool,
 }
 
 impl Hist {
@@ -144,7 +146,7 @@ impl Hist {
         Hist {
             ty, min_rep: 2, max_rep: 3, min_steps: 4, max_steps: 16, disc,
             w_gen: 30, w_deliver: 40, w_dup: 6, w_merge: 0, w_snap: 0, w_validate: 0, w_vmerge: 0, w_rr: 0, w_eq: 0,
-            w_persist: 0, flush: false,
+            w_persist: 0, flush: false, end_oracle: true,
         }
     }
 }
@@ -289,7 +291,9 @@ pub fn history(out: &mut String, rng: &mut Rng, h: &Hist, gen_args: &mut dyn FnM
             }
         }
     }
-    writeln!(out, "E").unwrap();
+    if h.end_oracle {
+        writeln!(out, "E").unwrap();
+    }
 }
 
 fn hist_cases(out: &mut String, rng: &mut Rng, h: &Hist, cases: usize, gen_args: &mut dyn FnMut(&mut Rng, usize) -> String) {
@@ -297,6 +301,35 @@ fn hist_cases(out: &mut String, rng: &mut Rng, h: &Hist, cases: usize, gen_args:
         let mut hh = Hist { ..*h };
         hh.flush = h.flush || i % 3 == 0;
         history(out, rng, &hh, gen_args);
+    }
+}
+
+fn nat_list(rng: &mut Rng, dom: usize, maxlen: usize) -> String {
+    let n = rng.below(maxlen + 1);
+    let v: Vec<String> = (0..n).map(|_| rng.below(dom).to_string()).collect();
+    format!("[{}]", v.join(","))
+}
+
+/// API-level Orswot edits over a 3-element domain (collisions are the point)
+pub fn orswot_args(rng: &mut Rng, _r: usize) -> String {
+    match rng.below(20) {
+        0..=7 => format!("add {}", rng.below(3)),
+        8 => format!("addr {}", rng.below(3)),
+        9 => format!("addall {}", nat_list(rng, 3, 3)),
+        10..=14 => format!("rm {}", rng.below(3)),
+        15 | 16 => format!("rmread {}", rng.below(3)),
+        17 => format!("rmall {}", nat_list(rng, 3, 3)),
+        18 => format!("rmall {}", nat_list(rng, 3, 2)),
+        _ => {
+            // remove with a hand-made (possibly future) context, as the repo's own tests do
+            let mut v = vec![];
+            for a in 0..3u64 {
+                if rng.chance(1, 2) {
+                    v.push((a, 1 + rng.below(4) as u64));
+                }
+            }
+            format!("rmctx {} {}", rng.below(3), clock_str(&v))
+        }
     }
 }
 
@@ -349,6 +382,25 @@ pub fn main(args: &[String]) {
             });
             hist_cases(&mut out, &mut rng, &mk("maxreg"), per, &mut |r, _| format!("write {}", r.below(9)));
             hist_cases(&mut out, &mut rng, &mk("minreg"), per, &mut |r, _| format!("write {}", 995 + r.below(9)));
+        }
+        "orswot_fifo" | "orswot_causal" | "orswot_any" | "orswot_fifo_ops" => {
+            let disc = match profile {
+                "orswot_causal" => Disc::Causal,
+                "orswot_any" => Disc::Any,
+                _ => Disc::Fifo,
+            };
+            let mut h = Hist::new("orswot", disc);
+            h.max_rep = 4;
+            h.max_steps = 22;
+            h.w_gen = 34;
+            if profile != "orswot_fifo_ops" {
+                h.w_merge = 10;
+                h.w_snap = 6;
+            }
+            h.w_dup = 6;
+            h.w_eq = 2;
+            h.end_oracle = disc != Disc::Any;
+            hist_cases(&mut out, &mut rng, &h, cases, &mut orswot_args);
         }
         "lww_conflict" => {
             // deliberately reused markers: validate_op / validate_merge must flag equal marker + different value, only
